@@ -55,6 +55,88 @@ def rollback (s : Store) (root : Bytes) : ReqRes × Store :=
   | none => (.notfound, s)
   | some _ => (.ok root, { s with trees := s.trees.filter (fun p => !(p.1 == root)) })
 
+/-! ### the in-memory evolution of one store's state tree (specification level, used by the theorems)
+
+One block = the ordered writes applied to the current tree followed by `Node.Hash` (what both `SetKVPair` and
+`MemSet` do before anything is written).  `roots` returns the root hash after every block (`[]` = nil). -/
+
+def applyBlock (H : Bytes → Bytes) (cfg : Cfg) (bh : Nat) (t : Tree) (kvs : List (Bytes × Bytes)) :
+    Option (Tree × Bytes) :=
+  match Tree.setMany t kvs with
+  | none => none
+  | some none => some (none, [])
+  | some (some n) => let (n', root) := hashRoot H cfg bh n; some (some n', root)
+
+def roots (H : Bytes → Bytes) (cfg : Cfg) : Tree → List (Nat × List (Bytes × Bytes)) → Option (List Bytes)
+  | _, [] => some []
+  | t, (bh, kvs) :: rest =>
+    match applyBlock H cfg bh t kvs with
+    | none => none
+    | some (t', root) => (roots H cfg t' rest).map (fun rs => root :: rs)
+
+/-! ### the memTree protocol in isolation (abstract keys)
+
+`tree.go`: `Tree.Hash` (MemSet path) moves the pending tree's `updateNode` entries into the process-global
+`memTree` *before anything is committed* (leaves only under `EnableMemVal`; `TreeMap.Add` toggles an existing key
+off); `Tree.Save` writes records to the database; `nodeDB.GetNode` asks `memTree` first and the database second.
+`Mem` keeps exactly that protocol over abstract node keys, so that "the cache is transparent" can be stated and
+refuted (`C02.cache_transparent_full_false`); the witness is replayed on the real code by `h_c02` (hunt mode).
+The byte-level model above does not contain memTree (it models it as transparent), and the differential run never
+produces the witness shape; see `vf/props/c02.py`. -/
+namespace Mem
+
+abbrev Key := Nat
+
+/-- the fields memTree / the database keep for a node: its children keys (`none` = leaf). -/
+structure Rec where
+  children : Option (Key × Key)
+  deriving DecidableEq, Repr
+
+abbrev Tbl := List (Key × Rec)
+
+def find (t : Tbl) (k : Key) : Option Rec :=
+  match t with
+  | [] => none
+  | (k', r) :: rest => if k' = k then some r else find rest k
+
+structure St where
+  db : Tbl
+  mem : Tbl
+
+/-- `TreeMap.Add`: adding an existing key deletes it. -/
+def memAdd (mem : Tbl) (k : Key) (r : Rec) : Tbl :=
+  if (find mem k).isSome then mem.filter (fun p => p.1 != k) else (k, r) :: mem
+
+inductive Op where
+  /-- `Tree.Hash` of a pending update: its new nodes go to memTree (leaves only when `memVal`). -/
+  | hashPending (nodes : Tbl) (memVal : Bool)
+  /-- `Tree.Save`: the new nodes' records go to the database. -/
+  | save (nodes : Tbl)
+
+def step (s : St) : Op → St
+  | .hashPending nodes memVal =>
+    { s with mem := nodes.foldl (fun m p => if p.2.children.isSome || memVal then memAdd m p.1 p.2 else m) s.mem }
+  | .save nodes => { s with db := nodes ++ s.db }
+
+def run (ops : List Op) : St := ops.foldl step ⟨[], []⟩
+
+/-- `GetNode`: memTree before the database. -/
+def getNode (s : St) (k : Key) : Option Rec :=
+  match find s.mem k with
+  | some r => some r
+  | none => find s.db k
+
+/-- can the whole subtree under `k` be resolved through `get` (what a traversal needs)? -/
+def readable (get : Key → Option Rec) : Nat → Key → Bool
+  | 0, _ => false
+  | fuel + 1, k =>
+    match get k with
+    | none => false
+    | some ⟨none⟩ => true
+    | some ⟨some (l, r)⟩ => readable get fuel l && readable get fuel r
+
+end Mem
+
 namespace Drv
 open C01.Drv Wire
 
